@@ -2,7 +2,7 @@
    This file contains only the property theorems (closed by [exact]) and Print Assumptions.
    [resolve true] is the constructor as it is now, [resolve false] the pinned commit. *)
 From Coq Require Import String.
-From Verif Require Import Bytes Resolve SshArgv Resolve_Proofs SshArgv_Proofs.
+From Verif Require Import Bytes Resolve SshArgv OpenHist Resolve_Proofs SshArgv_Proofs OpenHist_Proofs.
 From Gen Require Import Gen_Resolve.
 
 (* For every transport, host string, port / user / key / file arguments, strict flag and every
@@ -120,6 +120,51 @@ Theorem C17_system_argv_end_to_end :
                           (mkP (r_user r) (r_key r) (r_strict r) (r_cfg r) (r_kh r))) [].
 Proof. exact system_argv_end_to_end. Qed.
 Print Assumptions C17_system_argv_end_to_end.
+
+(* Several system transport objects in one process: over ANY sequence of open / close / re-open / direct
+   _build_open_cmd() of any number of objects, the spawns are, operation by operation, a function of the
+   opened object's own record: every open of object i spawns exactly once, with object i's own argv ... *)
+Theorem C17_history_spawns_are_per_object :
+  forall objs ops, hist_spawns objs ops = flat_map (spawn_of objs) ops.
+Proof. exact hist_spawns_spec. Qed.
+Print Assumptions C17_history_spawns_are_per_object.
+
+(* ... which ssh reads as that object's own host (and, without user open_cmd arguments, its own port / login /
+   identity / files), whatever was opened before *)
+Theorem C17_history_argv_faithful :
+  forall objs ops i argv,
+    In (i, argv) (hist_spawns objs ops) ->
+    exists o, nth_error objs i = Some o /\ argv = obj_argv o /\
+      (starts_dash (b_host (so_b o)) = false ->
+         match ssh_parse argv with Parsed d _ _ => d = b_host (so_b o) | Usage => True end /\
+         (so_extra o = [] ->
+          ssh_parse argv = Parsed (b_host (so_b o)) (expected_opts (so_b o) (so_tsock o) (so_ttrans o) (so_p o)) [])).
+Proof. exact hist_argv_faithful. Qed.
+Print Assumptions C17_history_argv_faithful.
+
+(* per-object state is necessary: with `open_cmd` on the class the second object dials the first one's host *)
+Theorem C17_shared_open_cmd_refuted :
+  exists objs ops i argv o,
+    In (i, argv) (shared_spawns objs ops) /\ nth_error objs i = Some o /\ argv <> obj_argv o /\
+    starts_dash (b_host (so_b o)) = false /\
+    match ssh_parse argv with Parsed d _ _ => d <> b_host (so_b o) | Usage => False end.
+Proof. exact shared_open_cmd_not_isolated. Qed.
+Print Assumptions C17_shared_open_cmd_refuted.
+
+(* asyncssh transport: host / port / username keywords are always present, so whatever the library would take
+   for an absent keyword (ssh config, local login name) it connects with what the driver reports *)
+Theorem C17_asyncssh_connects_with_reported :
+  forall l e a r b p,
+    resolve true e a = Built r b (Some p) ->
+    lib_resolve l (asyncssh_kwargs b p) = (r_host r, r_port r, r_user r).
+Proof. exact asyncssh_end_to_end. Qed.
+Print Assumptions C17_asyncssh_connects_with_reported.
+
+(* ... which fails as soon as an empty username is dropped instead of passed *)
+Theorem C17_asyncssh_user_if_any_refuted :
+  exists l b p, lib_resolve l (asyncssh_kwargs_user_if_any b p) <> (b_host b, b_port b, p_user p).
+Proof. exact asyncssh_user_if_any_refuted. Qed.
+Print Assumptions C17_asyncssh_user_if_any_refuted.
 
 (* the pinned commit violates every part (the baseline findings, as theorems about [resolve false]) *)
 Theorem C17_pinned_port_not_dialled :
